@@ -40,6 +40,15 @@ package server
 //@ func (*Server).listenerLoop
 //@   at-call handleConnection [below-limit] s.stats.currentConnections < config.Server.MaxConnections
 
+// The job runners are constructed empty: building the server rewrites nothing
+// of the configuration the password callback later decides by (C09).
+//@ func newScheduler
+//@   assigns nothing
+//@   ensures [made] result != nil
+//@ func newContinuous
+//@   assigns nothing
+//@   ensures [made] result != nil
+
 // ---- authentication (C09) --------------------------------------------------------
 // ufs_ssh_ConnMetadata_User(id(c)) is c.User(); ufb_resolves(host, ip): ip is one
 // of the addresses net.LookupIP returns for host.
